@@ -2,6 +2,7 @@
 import itertools
 import random
 
+from .. import histprop as H
 from .. import tt, fix
 from ..denote import Den, Builder
 from ..viol import Violation, require
@@ -9,6 +10,7 @@ from ..viol import Violation, require
 ID = 'C01'
 LEVEL = 'exploration'
 RULE = (
+    'H: Hypothesis histories (dd.bdd and dd.autoref) in which the connectives run with a warm computed table, after full and rooted collections, after node numbers were freed and re-used and after swaps; after every collection a battery of connectives on the held functions is recomputed and compared (non-trivial: a freed node number was re-used or the order changed). '
     'E: n=3, every ordered pair of the 256 functions x every binary alias '
     'of dd._abc (19 spellings) and every ITE triple (all in thorough; a '
     'seeded 1/16 of the first operands in quick), unary aliases, under all '
@@ -28,8 +30,24 @@ ASSUMPTIONS = [
 BIN = sorted(tt.BINARY)
 
 
+HIST_ALPHA = {'build': 6, 'apply': 14, 'funcop': 6, 'not': 2, 'ite': 8, 'drop': 8, 'gc': 6, 'gc_roots': 2, 'swap': 3, 'sift': 1, 'reorder_to': 1, 'var': 1}
+
+
+def _hist_nontrivial(w):
+    return w.labels.get('gc.number_reused', 0) > 0 or bool(w.nontrivial & {'swap', 'sift', 'reorder_to'})
+
+
+def _hist_plan(tier, seed):
+    cfgs = [dict(kind='bdd', nmax=4, init_vars=3), dict(kind='bdd', nmax=5, init_vars=4), dict(kind='autoref', nmax=4, init_vars=3)]
+    return [dict(kind='history', seed=seed * 1000 + 500 + s, cfgs=cfgs,
+                 examples=1200 if tier == 'thorough' else 200,
+                 min_len=10, max_len=45)
+            for s in range(8 if tier == 'thorough' else 4)]
+
+
 def plan(tier, seed):
     specs = []
+    specs += _hist_plan(tier, seed)
     ords = fix.orders(3)
     for oi, order in enumerate(ords):
         for variant in ('fresh', 'used'):
@@ -337,6 +355,8 @@ def replay_case(case):
 
 
 def replay_into(case, out):
+    if case.get('kind') == 'history':
+        return H.replay_into(case, out)
     if case.get('step') == 'recheck':
         spec = dict(case)
         spec.pop('step')
@@ -349,6 +369,8 @@ def replay_into(case, out):
 
 
 def run(spec, out):
+    if spec['kind'] == 'history':
+        return H.run_random(spec, out, HIST_ALPHA, _hist_nontrivial)
     missing = set(__import__('dd._abc')._abc.BINARY_OPERATOR_SYMBOLS) - \
         set(tt.BINARY) - set(tt.QUANT)
     if missing:
